@@ -1,67 +1,269 @@
 /-
-C11 — driver for the sqlx BulkInserter harness (core/stores/sqlx): the inserter's container is the model's bulk
-container with the threshold `maxBulkRows`; one sequential caller, so the model is a counter.
+C11 — driver for the sqlx BulkInserter harness (core/stores/sqlx).  The model of an inserter is the container
+`SqlC` of Containers.lean over the slice heap (ONE heap per section, shared by all inserters, like Go's), the
+statement assembly `sqlStmt`, and a table with what parseInsertStmt makes of the harness's statements.
 
-cfg:  kind=sqlx max=<maxBulkRows>
-ops:  ins <n> | flush | upd | stmt | wait
-obs:  ok | sizes=<sorted sizes of the batches handed to Exec since the last wait> rows=<distinct rows seen>
-      dup=<rows seen twice> bad=<unparsable statements>
+cfg:  kind=sqlx max=<maxBulkRows> hook=0|1
+ops:  new <k> <s> | ins <k> <n> | flush <k> | upd <k> | stmt <k> <s> | hand <k> | gate <k> | open <k> | insbg <k> <n>
+      | wait <k>            (see the harness for their meaning)
+obs:  ok [pre=… suf=… [fmt=…]] | err | skip |
+      x=<hash of the statement>|<prefix>|<rows>|<suffix> …  res=<n> bad=<n>
 -/
 import GoZero.Base.Trace
 import GoZero.C11.Model
+import GoZero.C11.Containers
 namespace GoZero.C11
 
 open GoZero
 
+/-- what `parseInsertStmt` makes of the statements of the harness (prefix, suffix, value format); `none` = error -/
+def sqlxStmtTable : List (Option (String × String × String)) :=
+  [some ("insert into t(a) values", "", "(?)"),
+   some ("INSERT INTO t(a) VALUES", "ON DUPLICATE KEY UPDATE a=VALUES(a)", "(?)"),
+   some ("insert ignore into t values", "", "(?)"),
+   some ("insert into t(a) values", "on duplicate key update a = a + 1, b = 2", "(?)"),
+   none, none, none]
+
+structure SqlInst where
+  live    : Bool := false
+  c       : SqlC := {}
+  pre     : String := ""
+  suf     : String := ""
+  out     : List (Slice × String × String) := []   -- batches handed out since the last wait, with their statement
+  handler : Bool := false
+  res     : Nat := 0
+  gate    : Bool := false
+  hits    : Nat := 0            -- threshold hand-overs since the gate was closed
+  helper  : Option (List Nat) := none   -- rows the parked helper goroutine still has to insert
+  -- monitor state, from the implementation's observations only
+  mpre    : String := ""
+  msuf    : String := ""
+  since   : List Nat := []      -- rows accepted by Insert since the last wait
+  deriving Inhabited
+
 structure SqlxSt where
-  pending : Nat := 0          -- rows in the container
-  batches : List Nat := []    -- sizes of the batches taken out since the last wait
-  total   : Nat := 0          -- rows inserted so far
-  dead    : Bool := false
+  heap  : Heap String := {}
+  insts : List (Nat × SqlInst) := []
+  next  : Nat := 1
+  dead  : Bool := false
 
-/-- one `Insert`: AddTask appends and asks the model's threshold predicate -/
-def sqlxInsert (max : Int) (s : SqlxSt) : SqlxSt :=
-  let p := s.pending + 1
-  if bulkFull max (List.replicate p 0) then { s with pending := 0, batches := s.batches ++ [p], total := s.total + 1 }
-  else { s with pending := p, total := s.total + 1 }
+def SqlxSt.get (s : SqlxSt) (k : Nat) : SqlInst := ((s.insts.find? fun p => p.1 == k).map (·.2)).getD {}
+def SqlxSt.set (s : SqlxSt) (k : Nat) (i : SqlInst) : SqlxSt :=
+  { s with insts := (s.insts.filter fun p => p.1 != k) ++ [(k, i)] }
 
-def sqlxFlush (s : SqlxSt) : SqlxSt :=
-  if s.pending > 0 then { s with pending := 0, batches := s.batches ++ [s.pending] } else s
+def us (s : String) : String := if s = "" then "-" else s.replace " " "_"
 
-def sqlxLine (max : Int) (sec : Nat) (acc : Report × SqlxSt) (l : Line) : Report × SqlxSt := Id.run do
+def sqlHash (s : String) : Nat := s.foldl (fun h c => (h * 31 + c.toNat) % 4294967296) 7
+
+def rowStr (n : Nat) : String := s!"({n})"
+
+def showRows : List Nat → List String
+  | [] => []
+  | a :: rest =>
+    let run := (rest.zipIdx.takeWhile fun (x, i) => x == a + i + 1).length
+    (if run > 0 then s!"{a}~{a + run}" else toString a) :: showRows (rest.drop run)
+termination_by l => l.length
+decreasing_by simp; omega
+
+def parseRows (s : String) : List Nat :=
+  if s = "-" then [] else
+  (s.splitOn ",").flatMap fun t =>
+    match t.splitOn "~" with
+    | [a, b] => match a.toNat?, b.toNat? with
+      | some a, some b => (List.range (b + 1 - a)).map (· + a)
+      | _, _ => []
+    | [a] => (a.toNat?).toList
+    | _ => []
+
+def sdrop (s : String) (n : Nat) : String := String.ofList (s.toList.drop n)
+
+def tokAfter (toks : List String) (key : String) : Option String :=
+  toks.findSome? fun t => if t.startsWith (key ++ "=") then some (sdrop t (key.length + 1)) else none
+
+/-- take the pending rows out (Flush): a non-empty batch goes to Exec with the CURRENT statement -/
+def SqlInst.flush (i : SqlInst) : SqlInst :=
+  let r := SqlC.removeAll i.c
+  if r.2.len > 0 then { i with c := r.1, out := i.out ++ [(r.2, i.pre, i.suf)], res := if i.handler then i.res + 1 else i.res }
+  else { i with c := r.1 }
+
+/-- insert rows one by one; with `stopAtHit` the inserting goroutine parks at its first hand-over (the flusher is
+busy): returns the rows not inserted yet -/
+def insertRows (max : Int) (stopAtHit : Bool) : List Nat → Heap String × SqlInst → (Heap String × SqlInst) × List Nat
+  | [], acc => (acc, [])
+  | v :: rest, (h, i) =>
+    let r := SqlC.addTask (fun n => n) h i.c (rowStr v)
+    -- the model's threshold is the constant of Containers.lean; `max` (from the cfg) is only used for cover counters
+    let i1 := { i with c := r.2.1 }
+    if r.2.2 then
+      let i2 := { i1.flush with hits := if i.gate then i.hits + 1 else i.hits }
+      if stopAtHit then ((r.1, i2), rest) else insertRows max stopAtHit rest (r.1, i2)
+    else insertRows max stopAtHit rest (r.1, i1)
+
+def hitsOf (i : SqlInst) (n : Nat) : Nat := (i.c.values.len + n) / 1000
+
+def sortExecs (l : List (Nat × String)) : List (Nat × String) :=
+  l.foldr (fun x acc => let (lo, hi) := acc.span (fun y => y.1 < x.1); lo ++ [x] ++ hi) []
+
+/-- the `wait` observation the model expects -/
+def expectWait (h : Heap String) (i : SqlInst) : List String :=
+  let execs := i.out.filterMap fun (b, pre, suf) =>
+    let rows := h.read b
+    match sqlStmt pre suf rows with
+    | none => none
+    | some q =>
+      let ns := rows.filterMap fun r => (String.ofList ((r.toList.drop 1).dropLast)).toNat?
+      some (ns.headD 0, s!"x={sqlHash q}|{us pre}|{",".intercalate (showRows ns)}|{us suf}")
+  (sortExecs execs).map (·.2) ++ [s!"res={i.res}", "bad=0"]
+
+def sqlxLine (max : Int) (hook : Bool) (sec : Nat) (acc : Report × SqlxSt) (l : Line) : Report × SqlxSt := Id.run do
   let (r0, s) := acc
   let mut r := { r0 with ops := r0.ops + 1 }
   let impl := joinSp l.obs
   r := r.addCover ("sqlx-op-" ++ l.op.headD "?")
   if s.dead then return (r, s)
+  let bad := (r.mismatch sec l.idx "a known op" impl, { s with dead := true })
   match l.op with
-  | ["ins", n] =>
-    match n.toNat? with
-    | none => return (r.mismatch sec l.idx "a number of rows" impl, { s with dead := true })
-    | some n =>
-      let s' := (List.range n).foldl (fun st _ => sqlxInsert max st) s
-      if s'.batches.length > s.batches.length then r := r.addCover "sqlx-insert-reaches-maxBulkRows"
-      if (s'.pending : Int) + 1 = max then r := r.addCover "sqlx-container-at-maxBulkRows-1"
-      if s'.pending = 0 ∧ n > 0 then r := r.addCover "sqlx-insert-ends-exactly-at-threshold"
+  | [op, ks] | [op, ks, _] =>
+    let some k := ks.toNat? | return bad
+    let arg := (l.op.getD 2 "").toNat?
+    let i := s.get k
+    -- what the model expects
+    let skip (why : String) : Report × SqlxSt :=
+      if impl = "skip" then (r.addCover ("sqlx-skip-" ++ why), s) else (r.mismatch sec l.idx "skip" impl, { s with dead := true })
+    if op = "new" then
+      let some si := arg | return bad
+      if i.live ∧ (i.gate ∨ i.helper.isSome) then return skip "new-while-gated"
+      match (sqlxStmtTable.getD si none) with
+      | none =>
+        r := r.addCover "sqlx-statement-rejected"
+        if impl ≠ "err" then r := r.mismatch sec l.idx "err" impl
+        return (r, s.set k {})
+      | some (pre, suf, fmt) =>
+        let want := s!"ok pre={us pre} suf={us suf} fmt={us fmt}"
+        if suf ≠ "" then r := r.addCover "sqlx-statement-with-suffix"
+        if s.insts.any (fun p => p.1 != k ∧ p.2.live) then r := r.addCover "sqlx-second-inserter-in-section"
+        if i.live then r := r.addCover "sqlx-inserter-replaced-in-slot"
+        if impl ≠ want then r := r.mismatch sec l.idx want impl
+        let mp := (tokAfter l.obs "pre").getD "?"
+        let ms := (tokAfter l.obs "suf").getD "?"
+        let inew : SqlInst := { live := true, pre := pre, suf := suf, mpre := mp, msuf := ms }
+        return (r, s.set k inew)
+    if !i.live then return skip "no-inserter"
+    match op with
+    | "ins" =>
+      let some n := arg | return bad
+      let hits := hitsOf i n
+      if i.gate ∧ !(hits = 0 ∨ (hits = 1 ∧ i.hits = 0)) then return skip "ins-would-park-behind-gate"
+      let rows := (List.range n).map (· + s.next)
+      let ((h', i'), _) := insertRows max false rows (s.heap, i)
+      if hits > 0 then r := r.addCover "sqlx-insert-reaches-maxBulkRows"
+      if (i'.c.values.len : Int) + 1 = max then r := r.addCover "sqlx-container-at-maxBulkRows-1"
+      if i'.c.values.len = 0 ∧ n > 0 then r := r.addCover "sqlx-insert-ends-exactly-at-threshold"
+      if i.helper.isSome then r := r.addCover "sqlx-insert-while-handed-over-batch-waits-for-the-flusher"
+      if impl ≠ "ok" then
+        r := r.mismatch sec l.idx "ok" impl
+        return (r, { s with dead := true })
+      let i2 : SqlInst := { i' with since := i'.since ++ rows }
+      let s2 := s.set k i2
+      return (r, { s2 with heap := h', next := s.next + n })
+    | "insbg" =>
+      let some n := arg | return bad
+      if !(hook ∧ i.gate ∧ i.helper.isNone ∧ i.hits = 1) then return skip "insbg-needs-a-busy-flusher"
+      let rows := (List.range n).map (· + s.next)
+      let ((h', i'), rest) := insertRows max true rows (s.heap, i)
+      if impl ≠ "ok" then
+        r := r.mismatch sec l.idx "ok" impl
+        return (r, { s with dead := true })
+      if rest.length < n ∧ i'.hits = 2 then r := r.addCover "sqlx-helper-parked-with-handed-over-batch"
+      let i2 : SqlInst := { i' with since := i'.since ++ rows, helper := some rest }
+      let s2 := s.set k i2
+      return (r, { s2 with heap := h', next := s.next + n })
+    | "gate" =>
+      if i.gate then return skip "gate-twice"
       if impl ≠ "ok" then r := r.mismatch sec l.idx "ok" impl
-      return (r, s')
-  | ["flush"] | ["upd"] | ["stmt"] =>
-    if impl ≠ "ok" then r := r.mismatch sec l.idx "ok" impl
-    if s.pending > 0 then r := r.addCover "sqlx-flush-takes-partial-batch"
-    return (r, sqlxFlush s)
-  | ["wait"] =>
-    let s' := sqlxFlush s
-    -- the property on the implementation's own observation
-    let rows := kvNat l.obs "rows" 0
-    if kvNat l.obs "dup" 0 > 0 then r := r.violation sec l.idx s!"sqlx BulkInserter: {kvNat l.obs "dup" 0} rows were handed to Exec twice"
-    if rows < s'.total then r := r.violation sec l.idx s!"sqlx BulkInserter: {s'.total - rows} rows accepted by Insert were never executed although Wait has returned"
-    if rows > s'.total then r := r.violation sec l.idx s!"sqlx BulkInserter: {rows - s'.total} rows reached Exec but were never inserted"
-    let want := s!"sizes={if s'.batches.isEmpty then "-" else ",".intercalate ((sortNat s'.batches).map toString)} rows={s'.total} dup=0 bad=0"
-    if want ≠ impl then r := r.mismatch sec l.idx want impl
-    return (r, { s' with batches := [] })
-  | _ => return (r.mismatch sec l.idx "a known op" impl, { s with dead := true })
+      return (r, s.set k { i with gate := true, hits := 0 })
+    | "open" =>
+      if !i.gate then return skip "open-without-gate"
+      let ((h', i'), _) := insertRows max false (i.helper.getD []) (s.heap, { i with gate := false })
+      if impl ≠ "ok" then r := r.mismatch sec l.idx "ok" impl
+      let i2 : SqlInst := { i' with helper := none, hits := 0 }
+      let s2 := s.set k i2
+      return (r, { s2 with heap := h' })
+    | _ =>
+    if i.gate then return skip "behind-gate"
+    match op with
+    | "flush" | "upd" =>
+      if impl ≠ "ok" then r := r.mismatch sec l.idx "ok" impl
+      if i.c.values.len > 0 then r := r.addCover "sqlx-flush-takes-partial-batch"
+      return (r, s.set k i.flush)
+    | "hand" =>
+      if impl ≠ "ok" then r := r.mismatch sec l.idx "ok" impl
+      return (r, s.set k { i.flush with handler := true })
+    | "stmt" =>
+      let some si := arg | return bad
+      let i1 := i.flush
+      match (sqlxStmtTable.getD si none) with
+      | none =>
+        if impl ≠ "err" then r := r.mismatch sec l.idx "err" impl
+        return (r.addCover "sqlx-UpdateStmt-rejected", s.set k i1)
+      | some (pre, suf, _) =>
+        let want := s!"ok pre={us pre} suf={us suf}"
+        if impl ≠ want then r := r.mismatch sec l.idx want impl
+        if pre ≠ i.pre ∨ suf ≠ i.suf then r := r.addCover "sqlx-UpdateStmt-changes-statement"
+        let mp := (tokAfter l.obs "pre").getD i.mpre
+        let ms := (tokAfter l.obs "suf").getD i.msuf
+        let inew : SqlInst := { i1 with pre := pre, suf := suf, mpre := mp, msuf := ms }
+        return (r, s.set k inew)
+    | "wait" =>
+      let i1 := i.flush
+      -- (a) the property on the implementation's own observation
+      let xs := l.obs.filter (·.startsWith "x=")
+      let mut seen : List Nat := []
+      for x in xs do
+        match (sdrop x 2).splitOn "|" with
+        | [_, pre, rows, suf] =>
+          let ns := parseRows rows
+          seen := seen ++ ns
+          if (ns.length : Int) > max then
+            r := r.violation sec l.idx s!"sqlx BulkInserter: a batch of {ns.length} rows reached Exec: the threshold maxBulkRows={max} was passed without the batch being taken out"
+          -- the statement pieces the implementation itself reported when the statement was set (the last two)
+          if !((pre = i.mpre ∧ suf = i.msuf) ∨ i1.out.any (fun o => us o.2.1 = pre ∧ us o.2.2 = suf)) then
+            r := r.violation sec l.idx s!"sqlx BulkInserter: rows {rows} were executed with prefix '{pre}' suffix '{suf}', but the inserter's statement is prefix '{i.mpre}' suffix '{i.msuf}'"
+          if suf ≠ "-" then r := r.addCover "sqlx-exec-with-suffix"
+        | _ => r := r.mismatch sec l.idx "x=<hash>|<prefix>|<rows>|<suffix>" x
+      let nbad := ((tokAfter l.obs "bad").getD "0").toNat?.getD 0
+      if nbad > 0 then
+        r := r.violation sec l.idx s!"sqlx BulkInserter: {nbad} statements handed to Exec are not '<prefix> (row), (row), … [suffix]': the rows in them were not executed as accepted"
+      let seenS := sortNat seen
+      let want := sortNat i1.since
+      let dups := (seenS.zip (seenS.drop 1)).filterMap fun (a, b) => if a = b then some a else none
+      if !dups.isEmpty then
+        r := r.violation sec l.idx s!"sqlx BulkInserter: {dups.length} rows were handed to Exec twice (first: row {dups.headD 0})"
+      let missing := want.filter fun x => !seenS.contains x
+      if !missing.isEmpty then
+        r := r.violation sec l.idx s!"sqlx BulkInserter: {missing.length} rows accepted by Insert were never executed although Wait has returned (first: row {missing.headD 0})"
+      let foreign := seenS.filter fun x => !want.contains x
+      if !foreign.isEmpty then
+        r := r.violation sec l.idx s!"sqlx BulkInserter: {foreign.length} rows reached Exec on this inserter but were not inserted on it since its last Wait (first: row {foreign.headD 0})"
+      -- (b) the model: same statements (hash of `sqlStmt`), same batches
+      let wantToks := expectWait s.heap i1
+      if wantToks ≠ l.obs then
+        -- a real ticker tick (1 s) may have split a batch on a loaded machine: same rows in order, same statement pieces
+        let pieces := fun (toks : List String) => (toks.filter (·.startsWith "x=")).flatMap fun x =>
+          match (sdrop x 2).splitOn "|" with
+          | [_, pre, rows, suf] => (parseRows rows).map fun n => s!"{pre}|{n}|{suf}"
+          | _ => [x]
+        if pieces wantToks = pieces l.obs ∧ xs.length > (wantToks.filter (·.startsWith "x=")).length then
+          r := r.addCover "sqlx-batch-split-by-a-real-tick"
+        else
+          r := r.mismatch sec l.idx (joinSp wantToks) impl
+          return (r, { s with dead := true })
+      if i1.out.length > 1 then r := r.addCover "sqlx-several-batches-in-one-wait"
+      return (r, s.set k { i1 with out := [], since := [] })
+    | _ => return bad
+  | _ => return bad
 
 def driverSqlx (secs : List Section) : Report :=
-  secs.foldl (fun r s => (s.lines.foldl (sqlxLine (kvInt s.cfg "max" 1000) s.idx) (r, {})).1) {}
+  secs.foldl (fun r s => (s.lines.foldl (sqlxLine (kvInt s.cfg "max" 1000) (kvNat s.cfg "hook" 0 = 1) s.idx) (r, {})).1) {}
 
 end GoZero.C11
